@@ -1108,13 +1108,15 @@ func (sc *serverConn) handleFrame(strm *Stream, fr *FrameHeader) error {
 		data := fr.Body().(*Data).Data()
 		strm.recvBody += len(data)
 
+		// Accounted before anything can turn the frame away: the peer spent
+		// connection window on it whether or not the body is wanted.
+		sc.consumeRecvWindow(strm, fr, fr.Len())
+
 		if sc.maxRequestBodySize > 0 && strm.recvBody > sc.maxRequestBodySize {
 			return NewResetStreamError(EnhanceYourCalm, "request body is too large")
 		}
 
 		strm.ctx.Request.AppendBody(data)
-
-		sc.consumeRecvWindow(strm, fr, fr.Len())
 	case FrameResetStream:
 		if strm.State() == StreamStateIdle {
 			return NewGoAwayError(ProtocolError, "RST_STREAM on idle stream")
